@@ -56,17 +56,34 @@ pub fn quote_attr(v: &str) -> String {
 }
 
 pub fn render_tag(attrs: &[(String, Option<String>)]) -> String {
+    render_tag_styled(attrs, 0)
+}
+
+/// How `name=value` is spelled: 0 `k="v"`, 1 `k = "v"`, 2 `k ="v"` (white space around `=` is part of the tag syntax).
+pub const EQ_STYLES: [&str; 3] = ["=", " = ", " ="];
+
+pub fn render_tag_styled(attrs: &[(String, Option<String>)], style: usize) -> String {
     let mut s = String::from("<block");
     for (k, v) in attrs {
         s.push(' ');
         s.push_str(k);
         if let Some(v) = v {
-            s.push('=');
+            s.push_str(EQ_STYLES[style % EQ_STYLES.len()]);
             s.push_str(&quote_attr(v));
         }
     }
     s.push('>');
     s
+}
+
+/// One spelling of `=` per rendered file, drawn from its first block (so that a file may hold no compact
+/// `name=` at all).
+pub fn eq_style_of(first: Option<&RuleBlock>) -> usize {
+    match first.map(|b| (b.lines.len() + b.indent + b.attrs.len()) % 5) {
+        Some(1) => 1,
+        Some(2) => 2,
+        _ => 0,
+    }
 }
 
 #[derive(Clone, Debug)]
@@ -91,13 +108,14 @@ pub fn render_batch(host: Host, blocks: &[RuleBlock]) -> Rendered {
     let mut text = String::new();
     let mut line = 1usize;
     let mut pos = Vec::with_capacity(blocks.len());
+    let eq_style = eq_style_of(blocks.first());
     if host == Host::Sh || host == Host::ShCrlf || host == Host::ShTrail {
         text.push_str("#!/bin/sh\n");
         line += 1;
     }
     for b in blocks {
         let ind = " ".repeat(b.indent);
-        let tag = render_tag(&b.attrs);
+        let tag = render_tag_styled(&b.attrs, eq_style);
         let tag_sc = ind.len() + host.open().len() + 1;
         let tag_ec = tag_sc + tag.len() - 1;
         text.push_str(&format!("{ind}{}{tag}\n", host.open()));
